@@ -270,6 +270,7 @@ func checkC04(c *Ctx, r *Report) {
 		n := len(callsInNamed(rw, "(lib/store/base.FileOp).AcceptState"))
 		r.Check(ok && n == 1, r4, rw, "writer accepts the download state only", nil, "AcceptState(downloadState)", "the download writer accepts files outside the download state: a committed cache file could be rewritten")
 	}
+	rulesPieceStatusSource(c, r)
 }
 
 func checkC05(c *Ctx, r *Report) {
@@ -303,6 +304,7 @@ func checkC05(c *Ctx, r *Report) {
 	if sr := c.Func("(*origin/blobserver.Server).startRemoteBlobDownload"); sr != nil {
 		r.Check(len(callsInNamed(sr, "(*lib/blobrefresh.Refresher).Refresh")) == 1, r4, sr, "refresh", nil, "calls the refresher", "the on-demand path no longer reaches the blob refresher")
 	}
+	rulesRegenWritesMetadata(c, r)
 }
 
 func checkC06(c *Ctx, r *Report) {
